@@ -8,6 +8,7 @@
 # selftest.sh seeded [ids...]          applies each /verif/seeded/<id>/patch.diff to /repo, runs the
 #                                      check of the property it breaks (must exit 1), reverts
 set -u
+export VERIF_EVIDENCE_DIR=/var/tmp/mbn-selftest-evidence   # never overwrite /verif/evidence from a broken tree
 HERE="$(cd "$(dirname "$0")" && pwd)"
 cd "$HERE"
 BIN="$HERE/dst/target/release/mbn-dst"
